@@ -205,20 +205,31 @@ def run(rep, facts):
     if not found:
         rep.undecidable("R2.6", "parse/one-cursor", "parse() does not call the payload step directly", b.loc())
     # and the payload step writes through that reference (advancing the slice in place)
-    pr_ = ir.Resolver(pb, keep_refs=True)
-    okw = False
-    for bi, blk in enumerate(pb.blocks):
-        t = blk["t"]
-        if t["k"] == "call" and "path" in t["func"] and F.norm(t["func"].get("res", {}).get("path") or t["func"]["path"]).endswith("::write") and len(t["args"]) == 2:
-            e = pr_.operand(t["args"][0], (bi, -1))
-            # receiver must be rooted (through derefs / field / variant) at the `dest` parameter, not at a by-value local copy
-            x = e
-            derefs = 0
-            while x[0] in ('ref', 'deref', 'field', 'variant'):
-                derefs += 1 if x[0] == 'deref' else 0
-                x = x[1]
-            if x[0] == 'param' and x[2] == 'dest' and derefs >= 1:
-                okw = True
+    def writes_through(body, pidx, depth=0):
+        """does `body` call <&mut [u8] as Write>::write on a receiver rooted (through derefs / fields / variants) at its
+        parameter `pidx` -- directly, or in a helper (new relative to the pinned tree) that it hands that reference to?"""
+        rr = ir.Resolver(body, keep_refs=True)
+        for bi, blk in enumerate(body.blocks):
+            t = blk["t"]
+            if t["k"] != "call" or "path" not in t["func"]:
+                continue
+            nm = F.norm(t["func"].get("res", {}).get("path") or t["func"]["path"])
+            for ai, a in enumerate(t["args"]):
+                x = rr.operand(a, (bi, -1))
+                derefs = 0
+                while x[0] in ('ref', 'deref', 'field', 'variant'):
+                    derefs += 1 if x[0] == 'deref' else 0
+                    x = x[1]
+                if not (x[0] == 'param' and x[1] == pidx):
+                    continue
+                if nm.endswith("::write") and len(t["args"]) == 2 and ai == 0 and derefs >= 1:
+                    return True
+                if depth < 3 and facts.is_new_helper(nm):
+                    for hb in facts.by_npath.get(nm, []):
+                        if writes_through(hb, ai + 1, depth + 1):
+                            return True
+        return False
+    okw = writes_through(pb, 3)      # parse_payload(self, res, dest)
     (rep.ok if okw else rep.violation)("R2.6", "payload-step/writes-through-cursor", "buf.write(payload) goes through the reference into the caller's Option<&mut [u8]> (the slice advances in place)" if okw else
                                        "the payload step writes through a by-value copy of the caller buffer", pb.loc())
 
